@@ -114,6 +114,36 @@ def check_text(text, name):
         elif a[0] != b[0]:
             out.append({"case": case, "diagnosis": "dumps-outcome-differs:" + ename,
                         "detail": "%r: old %r new %r" % (text[:80], a[:2], b[:2])})
+    # the same two results handed to one encoder after the other (an encoder may convert a block of
+    # its argument in place - PDS3 does, documented - and both sides must then go the same way)
+    if not out:
+        encs = {"PVL": impl.PVLEncoder, "ODL": impl.ODLEncoder, "PDS3": impl.PDSLabelEncoder, "ISIS": impl.ISISEncoder}
+        for order in (("default", "PVL", "ODL", "ISIS", "PDS3"), ("ISIS", "PDS3", "PVL", "default", "ODL")):
+            mo, mn = pvl.loads(text), pvl.new.loads(text)
+            for step, ename in enumerate(order):
+                if ename == "default":
+                    a, b = outcome(lambda: pvl.dumps(mo)), outcome(lambda: pvl.new.dumps(mn))
+                else:
+                    c = encs[ename]
+                    a = outcome(lambda: pvl.dumps(mo, encoder=c()))
+                    b = outcome(lambda: pvl.new.dumps(mn, encoder=c(group_class=impl.PVLGroupNew,
+                                                                      object_class=impl.PVLObjectNew)))
+                where = "%s (step %d of %s on the same objects)" % (ename, step + 1, "/".join(order))
+                if a[0] == "ok" and b[0] == "ok" and a[1] != b[1]:
+                    out.append({"case": case, "diagnosis": "dumps-differ-in-sequence:" + ename,
+                                "detail": "%r: %s: old %r new %r" % (text[:80], where, a[1][:150], b[1][:150])})
+                    break
+                if a[0] != b[0]:
+                    out.append({"case": case, "diagnosis": "dumps-outcome-differs-in-sequence:" + ename,
+                                "detail": "%r: %s: old %r new %r" % (text[:80], where, a[:2], b[:2])})
+                    break
+                d = compare(tree(mo, False), tree(mn, True))
+                if d:
+                    out.append({"case": case, "diagnosis": "content-differs-after-dump:" + ename,
+                                "detail": "%r: %s: %s" % (text[:80], where, d)})
+                    break
+            if out:
+                break
     return out, ("ok" if not out else "violation")
 
 
